@@ -44,9 +44,9 @@ ASSUMPTIONS = [
 EVENTS = ['e0', 'e1', 'e2', 'e3']
 
 
-def gen_one(rng, tier):
+def gen_one(rng, tier, scale=False):
     big = tier == 'thorough'
-    ncls = rng.randint(1, 6)
+    ncls = rng.randint(1, 6) if not scale else 25
     classes = []
     defined = []        # method names available per class (incl. inherited)
     for i in range(ncls):
@@ -74,7 +74,7 @@ def gen_one(rng, tier):
         defined.append(avail)
         classes.append({'base': base, 'decorated': decorated, 'names': names,
                         'maps': maps, 'methods': sorted(methods)})
-    nh = rng.randint(1, 8 if big else 5)
+    nh = rng.randint(1, 8 if big else 5) if not scale else 90
     handlers = [rng.randrange(ncls) for _ in range(nh)]
     scripts = []
     for _ in range(nh):
@@ -90,7 +90,7 @@ def gen_one(rng, tier):
                     script.append(['remove', rng.randrange(nh)])
         scripts.append(script)
     ops = []
-    for _ in range(rng.randint(1, 40 if big else 25)):
+    for _ in range(rng.randint(1, 40 if big else 25) if not scale else 400):
         k = rng.random()
         if k < 0.35:
             ops.append(['add', rng.randrange(nh)])
@@ -108,6 +108,9 @@ def gen_one(rng, tier):
 
 
 def gen_cases(tier, seed):
+    for i in range(3 if tier == 'quick' else 48):
+        yield gen_one(random.Random(f'C03/scale/{seed}/{tier}/{i}'), tier,
+                      scale=True)
     n = 5000 if tier == "quick" else 16 * 8000
     for i in range(n):
         yield gen_one(random.Random(f'C03/{seed}/{tier}/{i}'), tier)
